@@ -265,4 +265,60 @@ PROPS = {
              "all single-bit flips, all truncations/extensions, random, id conversions; distinct by request line",
         assumptions=["ALPHA16BOARDS is regenerated from the source on every run (translator)"],
     ),
+    "C13": dict(
+        lean_modules=["AlphaG.Props.C13"],
+        required_theorems=["AlphaG.C13." + t for t in [
+            "ranges_spec", "ranges_cover", "ranges_disjoint", "ranges_maximal", "ranges_rot", "avalanches_rot",
+            "full_ring_not_equivariant", "padHits_mirror", "avalanches_mirror"]],
+        harness=[("c13", ["dev"])],
+        disagreement_is_failing_input=False,
+        level_text="Lean theorems for a ring of any size and any carrier (no arithmetic law used, hence bit-for-bit in f64, NaN "
+                   "included): the contiguous ranges are exactly the maximal runs on the ring when at least one wire is free "
+                   "(ranges_spec/cover/disjoint/maximal), rotating the occupancy rotates the blocks as sequences in ring order "
+                   "(ranges_rot) and the avalanche multiset of a rotated event is the rotated multiset with identical time, z and "
+                   "amplitudes for any deconvolution function (avalanches_rot). Mirror: z is negated exactly over a field with "
+                   "log constrained only by log(a/b) = -log(b/a), for pairwise distinct pad-hit amplitudes. The full ring is "
+                   "proved NOT equivariant (full_ring_not_equivariant, finding F4).",
+        level_note="Partial: the full ring (F4) and equal-amplitude ties under the mirror (F8) are genuine violations, recorded "
+                   "as known findings. Mirror equality in f64 beyond 1e-9 m (rounding of ln) is sampled. The top level of the "
+                   "avalanches model is tied to MainEvent::avalanches by implementation-vs-implementation rotation/mirror "
+                   "oracles on events built with the verif_from_signals hook; ranges, wire/column maps and column matching "
+                   "are tied by the driver diff.",
+        technique="carrier-generic Lean model and theorems (permutation/ring-run reasoning) + differential check + "
+                  "rotation/mirror oracle on the implementation",
+        design_ref="DESIGN.md section 6, C13",
+        rule="cases: wire<->column maps (all), contiguous ranges for single blocks (stratified; all 65 536 placements in "
+             "thorough), random and special occupancies, column matching, events (random hits, tracks, blocks across the "
+             "255/0 seam, 255 wires, full ring) rotated by all 31 column counts, mirrored events, the equal-amplitude tie "
+             "probe; distinct by request line",
+        assumptions=["slice::sort_unstable_by applies a permutation that is a function of the key sequence only",
+                     "faer Cholesky solve is an arbitrary function of the block (deconvBlock)"],
+    ),
+    "C17": dict(
+        lean_modules=["AlphaG.Props.C17"],
+        required_theorems=["AlphaG.C17." + t for t in [
+            "fast_eq_naive", "pad_eq_plain", "deconv_shape", "deconv_nonneg", "deconv_scale", "isolated_pulse",
+            "ls_first_strict_min"]],
+        harness=[("c17", ["dev"])],
+        level_text="Lean theorems: the window-skipping sweep equals the plain one-sample-at-a-time non-negative greedy "
+                   "deconvolution for every carrier, signal, response, offset and look-ahead with no arithmetic law used — hence "
+                   "bit for bit in f64, NaN and infinities included (fast_eq_naive, pad_eq_plain); one output sample per input "
+                   "sample and one channel per channel (deconv_shape); non-negative amplitudes over any ordered field when the "
+                   "response window is negative (deconv_nonneg; the hypothesis is checked on the real tables on every run); "
+                   "covariance under any map satisfying the listed homogeneity laws (deconv_scale); isolated pulse recovered "
+                   "exactly at k (isolated_pulse); the sweep returns the first strict minimum (ls_first_strict_min).",
+        level_note="Partial: finiteness and the 1e-6 bound in f64, homogeneity of multiplication by 2^k in IEEE (no "
+                   "overflow/underflow) and faer's Cholesky solve (an uninterpreted function in the model) are covered by the "
+                   "bit-exact differential run and the oracles (scale 2^k for k in -8..=8, isolated pulse on all 256 wires), "
+                   "not by theorems.",
+        technique="carrier-generic Lean model and theorems (no float laws) + ordered-field theorems + bit-exact differential "
+                  "correspondence check",
+        design_ref="DESIGN.md section 6, C17",
+        rule="cases: all 38 (offset, look-ahead) settings x waveform length classes, every length 1..=700, pulses in the last "
+             "look-ahead samples, synthetic responses, least-squares sweeps (wire and pad grids, argmin coverage), scale 2^k, "
+             "Cholesky blocks of length 1..=256 incl. the seam, isolated pulses on all 256 wires, guards, non-finite samples; "
+             "distinct by request line",
+        assumptions=["f64::min is IEEE minNum; Iterator::sum starts at -0.0",
+                     "response tables are passed to the model inside each request (bit patterns of the built code's tables)"],
+    ),
 }
